@@ -114,6 +114,11 @@ def gen_matrix(r, n, style):
     return [[K[i][j] * scale for j in range(n)] for i in range(n)]
 
 
+def f32exact(x):
+    import struct
+    return struct.unpack("f", struct.pack("f", x))[0] == x
+
+
 def dyadic(r, lo, hi, bits=2):
     return r.range(lo * (1 << bits), hi * (1 << bits)) / float(1 << bits)
 
@@ -181,6 +186,148 @@ def gen_case(r, quick, edge):
     return ops, p
 
 
+# ---- shrink histories --------------------------------------------------------------------------
+# The clause "variables removed by shrinking are only ones that cannot improve the objective at that
+# moment" quantifies over every shrink() of every history, in particular over the ONE call per
+# problem object whose internal un-shrink fires (m_isUnshrinked false, KKT gap of the active
+# sub-problem below 10*eps) while earlier calls have removed variables that meanwhile became KKT
+# violators.  Uniformly random short op sequences on tiny problems practically never get there, so
+# this family builds such histories on purpose: noisy two-class problems with many bounded support
+# vectors (small C, overlapping classes, duplicated points, label noise), early shrinking with a
+# tiny eps (no un-shrink), further steps that move the gradients of the shrunk variables, then a
+# shrink with a large eps (un-shrink + immediate re-shrink), then more of the same and a full run.
+# The harness measures on the real objects how often the decisive situation was reached
+# (reached[...] in the evidence); run() requires it on every run.
+def gen_noisy_problem(r, quick, kind=None, nrange=None):
+    kind = kind or r.choice(["svm", "svm", "box"])
+    n = r.range(*nrange) if nrange else r.range(5, 14) if quick else r.range(5, 28)
+    d = r.range(1, 2)
+    y = [1.0 if r.chance(1, 2) else -1.0 for _ in range(n)]
+    sep = r.choice([0, 1, 1, 2])
+    X = [[r.range(-2, 2) + (sep if (y[i] > 0) != r.chance(1, 5) else -sep) * (1 if k == 0 else 0) for k in range(d)]
+         for i in range(n)]
+    # leverage points: scaled copies of other points -- their gradients move `s` times as fast as the gradients of
+    # the points that take the steps, so a shrink() decision about them is overtaken by the next few steps
+    lev = 0
+    X0 = [list(x) for x in X]
+    if r.chance(3, 4):
+        lev = r.range(1, max(1, n // 3))
+        for _ in range(lev):
+            src, dst = r.below(n), r.below(n)
+            sc = r.choice([-8, -4, -3, 3, 4, 8])
+            X[dst] = [sc * v for v in X0[src]]
+    kern = r.choice(["linear", "linear", "linear", "rbf", "poly"]) if lev else r.choice(["linear", "rbf", "rbf", "poly"])
+    def k(a, b):
+        ip = sum(u * v for u, v in zip(a, b))
+        if kern == "linear": return float(ip)
+        if kern == "poly": return float((ip + 1) ** 2)
+        return 2.0 ** -sum((u - v) ** 2 for u, v in zip(a, b))       # Gaussian kernel with gamma = ln 2: dyadic, PSD
+    ridge = r.choice([0.0, 0.0, 0.0, 0.25, 1.0])
+    if lev and kern == "rbf":       # scaled copies would underflow the Gaussian kernel: leverage in feature space instead
+        X, lev = X0, 0
+    K = [[k(X[i], X[j]) + (ridge if i == j else 0.0) for j in range(n)] for i in range(n)]
+    if not all(f32exact(v) for row in K for v in row):     # the float-cache variants need entries that are exact floats
+        kern = "linear"
+        K = [[k(X[i], X[j]) + (ridge if i == j else 0.0) for j in range(n)] for i in range(n)]
+    assert all(f32exact(v) for row in K for v in row)
+    C = r.choice([0.125, 0.25, 0.5, 1.0, 1.0, 2.0, 4.0])
+    lin, L, U = [], [], []
+    style = r.choice(["csvm", "csvm", "csvm", "regression"])
+    for i in range(n):
+        if style == "csvm":
+            w = r.choice([1.0, 1.0, 1.0, 0.5, 2.0])
+            lin.append(y[i]); L.append(0.0 if y[i] > 0 else -C * w); U.append(C * w if y[i] > 0 else 0.0)
+        else:    # epsilon-regression-like: symmetric boxes, targets on a grid
+            lin.append(dyadic(r, -2, 2)); L.append(-C); U.append(C)
+    # warm start far from the optimum, mostly at the bounds: the first shrink() calls guess on a state whose gradients
+    # still move a lot, so that removed variables DO become violators later (what happens on large noisy problems)
+    warm = r.chance(2, 3)
+    a0 = [0.0] * n
+    if warm:
+        for i in range(n):
+            c = r.below(6)
+            a0[i] = L[i] if c < 2 else U[i] if c < 4 else 0.0 if c == 4 else L[i] + (U[i] - L[i]) * r.choice([0.25, 0.5, 0.75])
+    return dict(kind=kind, n=n, shrink=1, K=K, lin=lin, L=L, U=U, a0=a0, style="noisy-" + kern + ("-lev" if lev else ""), box=style, warm=warm)
+
+
+def gen_history_case(r, quick, edge):
+    """adversarial history: early shrinking with a tiny eps, steps, then the shrink whose internal un-shrink fires"""
+    p = gen_noisy_problem(r, quick)
+    strategies = ["mvp", "libsvm"] if p["kind"] == "svm" else ["maxgain"]
+    tiny, big = 2.0 ** -30, r.choice([4.0, 64.0, 1024.0])
+    ops = [new_line(p, edge)]
+    selmix = r.choice([2, 5, 8])        # share of solver-selected steps (out of 10), the rest are arbitrary admissible pairs
+    def steps(lo, hi, bursts=True):
+        for _ in range(r.range(lo, hi)):
+            x = r.below(10)
+            if x < selmix: ops.append(f"ssmo {r.choice(strategies)}")
+            elif x < 9 or not bursts: ops.append(f"asmo {r.below(64)} {r.below(64)}")
+            else: ops.append(f"aflip {r.below(64)} {r.below(64)}")
+    steps(2, 8)
+    for _ in range(r.range(1, 3)):          # early shrinking without un-shrink, then the active problem moves on
+        ops.append(f"shrink {tok(tiny)}")
+        steps(3, 16)
+    shape = r.below(10)
+    if shape < 6:
+        ops.append(f"shrink {tok(big)}")                                   # gap < 10*big: the one automatic un-shrink
+    elif shape < 8:
+        ops.append(f"solve {r.choice(strategies)} {tok(big / 8)} {r.range(1, 3)}")   # the same from inside QpSolver::solve
+    else:
+        ops.append("unshrink"); ops.append(f"shrink {tok(tiny)}")       # explicit un-shrink, flag set, shrink again
+    steps(1, 6)
+    ops.append(f"shrink {tok(r.choice([tiny, big]))}")                    # flag already set: no second un-shrink
+    steps(0, 4)
+    if r.chance(2, 3):
+        ops.append(f"solve {r.choice(strategies)} {tok(r.choice([2.0 ** -10, 2.0 ** -3, 1e-3]))} {300 if quick else 3000}")
+    return ops, p
+
+
+def gen_converge_case(r, quick, edge, nlo=6, nhi=16, m=(10, 50)):
+    """early guesses far from the optimum, then the active sub-problem is (nearly) solved, then the shrink whose
+    internal un-shrink fires -- called directly or from inside QpSolver::solve (a solver object is created per
+    `solve` op, so its shrinking schedule starts over: step, shrink(eps), steps)"""
+    p = gen_noisy_problem(r, quick, nrange=(nlo, nhi) if quick else (nlo, 2 * nhi))
+    strat = r.choice(["mvp", "libsvm"]) if p["kind"] == "svm" else "maxgain"
+    tiny = 2.0 ** -30
+    ops = [new_line(p, edge)]
+    def step():
+        return f"ssmo {strat}" if not r.chance(1, 8) else f"asmo {r.below(64)} {r.below(64)}"
+    for _ in range(r.range(1, 2)):
+        for _ in range(r.range(0, 5)):
+            ops.append(step())
+        ops.append(f"shrink {tok(tiny)}" if r.chance(2, 3) else f"solve {strat} {tok(tiny)} {r.range(1, 3)}")
+    for _ in range(r.range(*m)):
+        ops.append(step())
+    eps = 2.0 ** -r.range(0, 8)
+    ops.append(f"shrink {tok(eps)}" if r.chance(1, 2) else f"solve {strat} {tok(eps)} {r.range(1, 4)}")
+    for _ in range(r.range(0, 6)):
+        ops.append(step())
+    ops.append(f"shrink {tok(r.choice([tiny, eps]))}")
+    if r.chance(1, 2):
+        ops.append(f"solve {strat} {tok(r.choice([2.0 ** -10, 2.0 ** -3, 1e-3]))} {300 if quick else 3000}")
+    return ops, p
+
+
+def gen_schedule_case(r, quick, edge):
+    """the solver's own loop with a denser shrinking schedule: `period` solver-selected steps, shrink(eps), ... -- the
+    un-shrink fires by itself when the active sub-problem is solved to 10*eps, as in QpSolver::solve on large problems
+    (there every 1000 iterations; the property does not depend on the period)"""
+    p = gen_noisy_problem(r, quick)
+    strat = r.choice(["mvp", "libsvm"]) if p["kind"] == "svm" else "maxgain"
+    eps = r.choice([2.0 ** -3, 2.0 ** -5, 2.0 ** -7, 1e-3])
+    period = r.range(1, 6)
+    ops = [new_line(p, edge)]
+    total = r.range(10, 40 if quick else 150)
+    k = 0
+    while k < total:
+        for _ in range(period):
+            ops.append(f"ssmo {strat}" if not r.chance(1, 8) else f"asmo {r.below(64)} {r.below(64)}"); k += 1
+        ops.append(f"shrink {tok(eps)}")
+    if r.chance(1, 2):
+        ops.append(f"solve {strat} {tok(eps)} {300 if quick else 3000}")
+    return ops, p
+
+
 def gen_analytic(r, count):
     """one case = one line (stateless ops)"""
     out = []
@@ -218,6 +365,7 @@ def gen_analytic(r, count):
 
 # ----------------------------------------------------------------------------- comparison
 INNER_ORACLE = re.compile(r" !oracle [^|;]*?(?= \||$| ;)")
+COVLINE = re.compile(r"C08COV ((?:\S+=\d+ ?)+)")
 SUFFIX = re.compile(r" ;(?:x|q)=([01]) ;fv=(\S+)(.*)$")
 
 
@@ -291,6 +439,11 @@ def correspond(ctx, name, cases, hcmd, dcmd, max_report=4):
     t = time.time()
     all_ops = [l for c in cases for l in c]
     big = run_case(ctx, hcmd, dcmd, all_ops, timeout=1500)
+    m = COVLINE.search(big.stderr)
+    if m:     # coverage measured by the harness on the real objects (see struct Coverage in harness/c08.cpp)
+        for kv in m.group(1).split():
+            k, v = kv.split("=")
+            ctx.hist("reached[" + name.split("[")[1].rstrip("]") + "]", k, int(v))
     ctx.count("traces_validated_against_impl", len(cases))
     ctx.count("ops_compared", len(all_ops))
     ctx.count("lines_exact_mode(no FE_INEXACT so far; Rat model == C++ exactly)", big.exact_lines)
@@ -354,7 +507,7 @@ def load_corpus(edge):
 
 def nontrivial(ops):
     ks = [o.split()[0] for o in ops]
-    return any(k in ("solve", "asmo") for k in ks) and any(k in ("shrink", "aflip", "solve") for k in ks) and len(ops) > 3
+    return any(k in ("solve", "asmo", "ssmo") for k in ks) and any(k in ("shrink", "aflip", "solve") for k in ks) and len(ops) > 3
 
 
 def run(ctx):
@@ -384,9 +537,13 @@ def run(ctx):
     corpus = load_corpus(edge)
     ctx.cov["corpus_cases"] = len(corpus)
     cases = []
-    for _ in range(ncase):
-        ops, p = gen_case(r, ctx.quick, edge)
+    nfam = dict(random=ncase, history=ncase // 2, converge=2 * ncase, schedule=ncase // 2)
+    gens = dict(random=gen_case, history=gen_history_case, converge=gen_converge_case, schedule=gen_schedule_case)
+    for fam in ("random", "history", "converge", "schedule"):
+      for _ in range(nfam[fam]):
+        ops, p = gens[fam](r, ctx.quick, edge)
         cases.append(ops)
+        ctx.hist("case_family", fam)
         ctx.hist("problem_kind", p["kind"]); ctx.hist("n", p["n"]); ctx.hist("matrix_style", p["style"])
         ctx.hist("box_style", p["box"]); ctx.hist("warm_start", p["warm"]); ctx.hist("shrinking", p["shrink"])
         for o in ops[1:]:
@@ -406,6 +563,15 @@ def run(ctx):
                [("dd", "2"), ("df", "2"), ("cd", "2"), ("cd", "5"), ("cf", "2"), ("cf", "3"), ("cf", "16")]
     with ThreadPoolExecutor(max_workers=4) as ex:
         list(ex.map(lambda v: correspond(ctx, f"K-C08[{v[0]},cacheRows={v[1]}]", cases, [exe, v[0], v[1]], [drv]), variants))
+    # the histories the shrinking clause quantifies over must have been reached on the REAL objects (measured by the
+    # harness): shrink() calls whose internal un-shrink re-activated a KKT violator such that the thresholds of the
+    # formerly active variables alone would have removed a different set of variables -- both problem kinds, called
+    # directly and from inside QpSolver::solve
+    reached = ctx.cov.get(f"reached[{variants[0][0]},cacheRows={variants[0][1]}]", {})
+    for key, least in (("unshrink_discriminating_svm", 3), ("unshrink_discriminating_box", 3),
+                       ("unshrink_discriminating_in_solve", 1), ("shrink_after_flag_set", 10), ("shrunk_became_violator", 10)):
+        if reached and reached.get(key, 0) < least:
+            ctx.broken("coverage", f"shrink-history:{key}", f"the generated histories reached {key} only {reached.get(key, 0)} times (< {least})")
     ctx.sample({"theorems": "see obligation_names"})
 
 
